@@ -1,7 +1,7 @@
 from props import COMMON_TRUSTED
 
 SPEC = {
-    "translators": ["tr_reader.py", "tr_layouts.py", "tr_cffdict.py"],
+    "translators": ["tr_reader.py", "tr_layouts.py", "tr_cffdict.py", "tr_glyf.py", "tr_glyfcmap.py"],
     "harness": "c15",
     "cases": {"quick": 15000, "thorough": 400000},
     "profiles": {"quick": ["debug", "release"], "thorough": ["debug", "release"]},
@@ -28,6 +28,22 @@ SPEC = {
         "written by hand after Adobe Technical Note #5176 and the OpenType CFF2 chapter (independent of the extracted model)",
         "verif-hooks feature of allsorts (src/verif.rs -> cff::verif_hooks): add-only wrappers around the private "
         "Op::read, owned INDEX writers, serialise_offset_array, offset_size, Real bytes accessor/constructor, Dict from entries",
+        "translators/tr_glyfcmap.py (on every run: compares the text of Glyph::{read, write}, CompositeGlyphs::read, "
+        "CompositeGlyph::{read, write}, CompositeGlyphComponent::{read_dep, write}, CompositeGlyphArgument::{read_dep, write}, "
+        "CompositeGlyphScale::write, CompositeGlyphFlag::read_from, Cmap::read, CmapSubtable::{read, write, to_owned}, "
+        "Format4Calculator, SequentialMapGroup::write, owned::Cmap::write, owned::CmapSubtable::write with the text "
+        "Model/Composite.v and Model/CmapWrite.v were written after; checks independently that the composite writer ORs "
+        "WE_HAVE_INSTRUCTIONS over all components, that every cmap length field is a placeholder back-patched with a checked "
+        "conversion of its own width (format 0: a checked conversion), that no sub-table writer contains a truncating cast and "
+        "that the owned sub-table writer is the borrowed one up to array writes; regenerates coq/Gen/GlyfCmapShapes.v: flag bits, "
+        "mask, accessor bits, per format number / length width / count width, the segment limit, the reader's format 0 / 4 "
+        "constants) and translators/tr_glyf.py (C16's, regenerates coq/Gen/GlyfConsts.v used by Model/Composite.v)",
+        "hand-written models Model/Composite.v (composite glyph reader and writer on the C14 reader model) and "
+        "Model/CmapWrite.v (borrowed = owned sub-table writer for formats 0, 4, 6, 10, 12, to_owned, Format4Calculator, "
+        "owned::Cmap::write, whole-table read) over the C06 reader model Model/Cmap.v and the C08 byte encoders of "
+        "Model/CmapSubset.v; tied to the code by tr_glyfcmap.py's shape pins and by correspondence",
+        "ocaml/c15/drv.ml: the composite glyph and cmap judges' reference decoders / encoders over raw byte strings, written "
+        "by hand after the OpenType glyf (composite glyph description) and cmap chapters (independent of the extracted model)",
     ],
     "assumptions": [
         "buffers are shorter than 2^64 bytes; usize is 64 bits",
@@ -40,6 +56,13 @@ SPEC = {
         "0xF nibble is in their last byte, at most max_operands operands, Offset exactly where integer_to_offset puts it) and is "
         "proved to cover everything Dict::read_dep can return; written DICTs are shorter than 2^64 bytes; DictDelta holds only "
         "Offset operands (DictDelta::push asserts it)",
+        "composite glyphs: the round trip is stated for the domain cg_ok (defined flag bits, argument variant and scale form as "
+        "the flags select, values of their types, MORE_COMPONENTS exactly on the non-last components, at least one component), "
+        "which is proved to contain everything Glyph::read can return; the writer does not normalise or check these",
+        "cmap: the round trip is stated for well-formed sub-table values (fields within their widths, the four segment arrays "
+        "of format 4 equally long, 256 entries in format 0), proved to contain everything CmapSubtable::read can return except "
+        "format 2; exactness and refusal of the length / count fields are stated for ALL values; sub-tables are written into a "
+        "fresh buffer (start = 0); Format4Calculator's f64 log2 is Z.log2 on 1..32767",
     ],
     "rule": "cases per kind (see harness/src/bin/c15.rs gen): struct values with every field drawn from {min, max, 0, "
             "near-min, near-max, small, uniform} of its type -> write -> read (9 straight-line layouts, maxp, OS/2 incl. "
@@ -56,6 +79,21 @@ SPEC = {
             "parse for head, hhea, maxp, OS/2, hmtx, name, post header, records, INDEX, glyphs; the corpus adds every "
             "head/hhea/maxp/name/post/OS/2/hmtx/loca/glyf/CFF table of every fixture font (parse-write-parse) and every Top, Font "
             "and Private DICT of the 11 CFF/CFF2 fixture fonts (live from the fixture and as bytes through the model). "
+            "COMPOSITE GLYPHS AND CMAP, 24% of the cases: cg (composite value -> Glyph::write -> Glyph::read with 3 trailing bytes): "
+            "0..9 components (mostly 1-3), WE_HAVE_INSTRUCTIONS on no / the first / a middle / the last / random / all-but-last / all "
+            "components, every argument form (u8, i8, u16, i16) at its edges, the three scale forms and several scale flags at once, "
+            "random optional flags, instructions empty / 1-5 bytes / 65535 / 65536 / around 65535 (rare), 1 in 8 values outside the "
+            "round-trip domain (variant against flags, wrong scale form, random MORE_COMPONENTS); glyphrd composite branch: hand-assembled "
+            "bytes with reserved flag bits and any negative contour count, trailing bytes, 1/3 mutated; cms (sub-table value -> borrowed "
+            "or owned write -> read): format 0 (256 entries, sometimes 0/1/255/257/300), format 4 (0..1200 segments incl. none and the "
+            "powers of two +-1, segments ending at 0xFFFF, idRangeOffset 0 / into the array / odd / beyond, 1 in 15 with unequal arrays; "
+            "1 in 40 straddling the 65535/65536-byte limit: 2 segments + 32751 / 32752 / 32818 ids, 8189 / 8190 segments), format 6 "
+            "(0..12 entries; 32762 / 32763 / 65535 / 65536), format 10, format 12 (0..6 groups; 5461 / 5462 / 65535-70000 rare); cmsrd "
+            "(bytes of such values with free search fields, reservedPad, altered length fields, format 2, 1/3 mutated -> read -> write -> "
+            "read -> write, borrowed and owned path); cmapv (owned table: 0..3 records, 1..300 equal records, 65536 records); cmaprd "
+            "(written tables with shared / reordered / out-of-range offsets, version and numTables altered, 1/4 mutated); the corpus "
+            "adds the boundary shapes, a 65536-group format 12 table, the repaired defect, and every composite glyph (14872), cmap "
+            "sub-table (132, both writers) and cmap table of the 76 fixture fonts. "
             "distinct = distinct input lines; histogram = kind x result class",
     "gen_timeout": 1200,
     "avm_timeout": 1200,
